@@ -67,7 +67,7 @@ C01_x(R, O) == NoErr(O, {"has:", "flat:"})
 (* C03  canonical timelines                                                 *)
 (***************************************************************************)
 TlAll(O) == ToSet(O.tl) \cup ToSet(O.tlnb)
-C03_a(R, O) == \A x \in TlAll(O) : WellShaped(x.iv) /\ x.iv # <<>>
+C03_a(R, O) == \A x \in TlAll(O) : WellShaped(x.iv)
 C03_b(R, O) == \A x \in TlAll(O) : Canonical(x.iv)
 C03_c(R, O) == /\ \A x \in TlAll(O) : PresOf(x.iv) = AddedOf(R, Norm(R.dir, x.u, x.v))
                /\ \A p \in DOMAIN R.added : \E x \in ToSet(O.tlnb) : Norm(R.dir, x.u, x.v) = p
@@ -198,7 +198,10 @@ RefStep(R, T, prevO, c, res) ==
 
 \* C01: the call is rejected exactly by the documented rule (judged on
 \* removal-enabled graphs only, DESIGN.md 3.6)
-C01_c(R, c, res) == R.rem => res = ExpectedRes(R, c)
+\* an empty span (e <= t) "starts" nowhere: the statement lets such a call be a no-op whatever its t, or be
+\* subjected to the order rule like any other call
+EmptyCall(c) == c.t # NoT /\ c.e # NoEnd /\ c.e <= c.t
+C01_c(R, c, res) == R.rem => (res = ExpectedRes(R, c) \/ (EmptyCall(c) /\ res = "ok"))
 \* C07: a raising call of the add family leaves no trace; for a bulk helper
 \* whose k-th element is rejected the first k-1 elements stay applied, so the
 \* raw observation may only be required to be unchanged when k = 1
